@@ -50,6 +50,7 @@ type dnode struct {
 	bound  bool
 	in     []edge // (source, EdgeInfo.Index)
 	out    []edge // only for args whose value is bound: every (dest, info) pair of Out()
+	allOut []edge // every (dest, info) pair of Out() (the model follows them only from bound args)
 	// call
 	calleeGraph int   // -1: no CalleeSummary
 	args        []int // arg nodes by position
@@ -255,6 +256,17 @@ func dumpGraph(state *df.AnalyzerState, keep func(*ssa.Function) bool) *dump {
 			dn.in = append(dn.in, edge{id(s), e.Index})
 		}
 		sort.Slice(dn.in, func(a, b int) bool { return dn.in[a].to < dn.in[b].to })
+		for t, infos := range n.Out() {
+			for _, e := range infos {
+				dn.allOut = append(dn.allOut, edge{id(t), e.Index})
+			}
+		}
+		sort.Slice(dn.allOut, func(a, b int) bool {
+			if dn.allOut[a].to != dn.allOut[b].to {
+				return dn.allOut[a].to < dn.allOut[b].to
+			}
+			return dn.allOut[a].idx < dn.allOut[b].idx
+		})
 		switch x := n.(type) {
 		case *df.ParamNode:
 			dn.index = x.Index()
@@ -294,17 +306,7 @@ func dumpGraph(state *df.AnalyzerState, keep func(*ssa.Function) bool) *dump {
 			_, dn.bound = state.BoundingInfo[x.Value()]
 			_, dn.isConstArg = x.Value().(*ssa.Const)
 			if dn.bound {
-				for t, infos := range x.Out() {
-					for _, e := range infos {
-						dn.out = append(dn.out, edge{id(t), e.Index})
-					}
-				}
-				sort.Slice(dn.out, func(a, b int) bool {
-					if dn.out[a].to != dn.out[b].to {
-						return dn.out[a].to < dn.out[b].to
-					}
-					return dn.out[a].idx < dn.out[b].idx
-				})
+				dn.out = dn.allOut
 			}
 			if x.ParentNode().CallSite() != nil {
 				pos = x.ParentNode().CallSite().Pos()
@@ -413,16 +415,22 @@ func b01(b bool) int {
 //	g <gid> <constructed> <callsites> <refClosures>
 //	n <id> <kind> <gid> <index> <parent> <nillable> <bound> in=<src:idx,...> out=<dst:idx,...>
 //	  cg=<calleeGraph> args=.. cp=.. rets=.. sk=<siteKey> bvs=.. kg=<closGraph> fvs=.. wr=..
-func (d *dump) oracleText() string {
+func (d *dump) oracleText(flags func(n *dnode) (goDefer, isPoint bool)) string {
 	var b strings.Builder
 	fmt.Fprintf(&b, "graph %d %d\n", len(d.graphs), len(d.nodes))
 	for _, g := range d.graphs {
 		fmt.Fprintf(&b, "g %d %d %s %s\n", g.id, b01(g.constructed), ints(g.callsites), ints(g.refClosures))
 	}
 	for _, n := range d.nodes {
-		fmt.Fprintf(&b, "n %d %s %d %d %d %d %d %s %s %d %s %s %s %d %s %d %s %s\n",
-			n.id, n.kind, n.graph, n.index, n.parent, b01(n.nill), b01(n.bound), edges(n.in), edges(n.out),
-			n.calleeGraph, ints(n.args), ints(n.calleeParam), ints(n.rets), n.siteKey, ints(n.bvs), n.closGraph, ints(n.closFvs), ints(n.writes))
+		gd, pt := flags(n)
+		graph := n.graph
+		if graph < 0 {
+			graph = len(d.graphs) // a node of a graph outside the dump: its own (empty, unconstructed) graph
+		}
+		fmt.Fprintf(&b, "n %d %s %d %d %d %d %d %s %s %d %s %s %s %d %s %d %s %s %d %d\n",
+			n.id, n.kind, graph, n.index, n.parent, b01(n.nill), b01(n.bound), edges(n.in), edges(n.allOut),
+			n.calleeGraph, ints(n.args), ints(n.calleeParam), ints(n.rets), n.siteKey, ints(n.bvs), n.closGraph, ints(n.closFvs), ints(n.writes),
+			b01(gd), b01(pt))
 	}
 	return b.String()
 }
